@@ -25,7 +25,10 @@ def gen_plan(rng, opts=None):
         d = rng.choice(dss)
         r = rng.random()
         gap = rng.choice([0, 0, 50, 100, 200, 400, 1000, 3000, 100_000, 300_000, 1_000_000, 3_000_000, 6_000_000])   # microseconds
-        if r < 0.12:
+        if r < 0.05:
+            # the target's shm server stalls (stopped / swapped out) for seconds just when the payload of this transfer arrives
+            cmds.append(["tx_stall", d, rng.choice(hosts), rng.choice([500, 2500, 5000, 9000]), gap])
+        elif r < 0.12:
             # a purge at the target timed to land while the payload of this very transfer is being stored there
             cmds.append(["tx_purge", d, rng.choice(hosts), rng.choice([0, 0, 10, 30, 60, 100, 200, 500]), gap])
         elif r < 0.55:
@@ -98,6 +101,8 @@ def run(plan, ch, want_log=False):
         return orig_ab_close(self_)
 
     purge_on_payload = {}                              # (target host, transmit idx) -> (dataset, delay in us)
+    stall_on_payload = {}                              # (target host, transmit idx) -> ms the target's shm server stalls
+    procs = {}
     payload_first = collections.defaultdict(dict)      # host -> transmit idx -> seq at which its payload first reached the data server
 
     def zrecv(addr, frames):
@@ -118,6 +123,9 @@ def run(plan, ch, want_log=False):
                     if isinstance(hd, DatasetTransmitPayloadHeader):
                         first = hd.confirm_idx not in payload_first[h]
                         payload_first[h].setdefault(hd.confirm_idx, K.seq)
+                        st = stall_on_payload.pop((h, hd.confirm_idx), None) if first else None
+                        if st is not None:
+                            K.stall(procs[h + ".shm"], st * 1_000_000)
                         trig = purge_on_payload.pop((h, hd.confirm_idx), None) if first else None
                         if trig is not None:
                             from cascade.executor.serde import ser_message
@@ -195,7 +203,7 @@ def run(plan, ch, want_log=False):
 
         for c in plan["cmds"]:
             pump(0, c[-1])
-            if c[0] in ("tx", "tx_purge"):
+            if c[0] in ("tx", "tx_purge", "tx_stall"):
                 r, tgt = c[1], c[2]
                 srcs = [h for h in hosts if r in holds[h] and r not in purged[h] and h != tgt]
                 if not srcs or r in purged[tgt]:
@@ -204,6 +212,8 @@ def run(plan, ch, want_log=False):
                 s.send("data." + src, DatasetTransmitCommand(source=src, target=tgt, daddress=daddr[tgt], ds=ds_of[r], idx=idx))
                 unanswered[idx] = ("tx", r, src, tgt)
                 issued.append(("tx", idx, r, src, tgt, r in holds[tgt], K.seq))
+                if c[0] == "tx_stall":
+                    stall_on_payload[(tgt, idx)] = c[3]
                 if c[0] == "tx_purge" and r not in holds[tgt]:
                     purge_on_payload[(tgt, idx)] = (ds_of[r], c[3])
                     purged[tgt].add(r)
@@ -239,7 +249,7 @@ def run(plan, ch, want_log=False):
     for h in hosts:
         ph = SimProc(K, h, root, toplevel=True)
         ph.env["CASCADE_SHM_PORT"] = str(port[h])
-        SimProc(K, h + ".shm", ph).start(lambda h=h: shm(h))
+        procs[h + ".shm"] = SimProc(K, h + ".shm", ph).start(lambda h=h: shm(h))
         SimProc(K, h + ".data", ph).start(lambda h=h: start_data_server(maddr[h], daddr[h], h, port[h], {"version": 1}))
         ph.start(lambda h=h: stub_executor(h))
         hp[h] = ph
